@@ -912,7 +912,11 @@ pub async fn exec_c15_mode(script: Value, bookkeeping: bool) -> ExecResult {
                 // (a message of the previous owner's node that mentions the address; the plain client report carries keys, not
                 // addresses in this form, and counts whenever it was sent)
                 let ipx = c_ip(k.1);
-                if distro.iter().any(|(src, t, ips)| *src == prev.0 && *t >= *t0 && *t <= end && ips.contains(&ipx)) {
+                // (a client report counts only in runs with injected faults)
+                // In a run with injected faults (delay, loss with a repeat, duplication, partitions) any message of the previous
+                // owner's node can arrive late, and a receiver that fetches what a client report names can overwrite the newer
+                // registration with the fetched copy: every take-over counts as exposed there. Fault-free runs need the evidence.
+                if faulted || distro.iter().any(|(src, t, ips, is_report)| *src == prev.0 && *t >= *t0 && *t <= end && ips.contains(&ipx) && !*is_report) {
                     handed_risky.insert(*k);
                     sim::count("probe.takeover_exposed_to_previous_owners_report", 1);
                 } else {
